@@ -301,7 +301,7 @@ static Topo MakeTopo(const std::vector<int>& forest, const std::vector<int>& cou
 static void GenAll(uint64_t seed, bool thorough, std::vector<std::vector<std::string>>& parts, size_t& fullPairs)
 {
 	Rng rng(seed * 0x9e3779b97f4a7c15ULL + 11);
-	size_t cap = thorough ? 6000 : 700;
+	size_t cap = thorough ? 20000 : 2500;
 	int maxZones = 5;
 	for (int n = 1; n <= maxZones; n++) {
 		for (auto& forest : Forests(n)) {
@@ -327,9 +327,9 @@ static void GenAll(uint64_t seed, bool thorough, std::vector<std::vector<std::st
 				int nep = (int)t.zoneOf.size();
 				std::vector<int> selves;
 				for (int e = 0; e < nep; e++) selves.push_back(e);
-				if (!thorough && n >= 4) {
+				if (!thorough && n >= 5) {
 					for (size_t i = selves.size(); i > 1; i--) std::swap(selves[i - 1], selves[rng.below(i)]);
-					selves.resize(std::min<size_t>(selves.size(), 4));
+					selves.resize(std::min<size_t>(selves.size(), 5));
 				}
 				for (int s : selves) GenCases(t, s, rng, cap, part, fullPairs);
 				parts.push_back(part);
